@@ -205,6 +205,14 @@ class C19:
                 # formulation, which this rule cannot read -- not a loop that skips or repeats tags
                 ctx.undec("R19.2", site, f"{fname} has no loop over its tags that the rule can read (the encoding is written in another formulation)")
                 continue
+            if any(l_.iter != tags and l_.iter[0] == "comp" and any(x == tags for x in walk(l_.iter)) for l_ in loops):
+                ctx.undec("R19.2", site, f"{fname} loops over a generator pipeline derived from its tags, which the rule cannot read")
+                continue
+            if len(loops) == 1 and loops[0].iter != tags and any(
+                    x[0] == "call" and x[1] in (("builtin", "filter"), ("builtin", "map"), ("ext", "itertools.filterfalse"), ("ext", "itertools.starmap"))
+                    and x[2] and x[2][0][0] in ("lambda", "global", "attr", "call") for x in walk(loops[0].iter)):
+                ctx.undec("R19.2", site, f"{fname} loops over a filter / map pipeline of its tags (`{show(loops[0].iter)[:60]}`), which the rule cannot read")
+                continue
             if len(loops) != 1 or loops[0].iter != tags or loops[0].conds:
                 ctx.bad("R19.2", self.file, fname, "loop over tags", "the encoding must iterate every tag of the input once", s.node.lineno)
                 continue
